@@ -923,6 +923,35 @@ func (e *Env) call(n *ast.CallExpr) (Val, types.Type, error) {
 		if err != nil {
 			return Val{}, nil, err
 		}
+		if (name == "bitat" || name == "rank1") && f.qdepth > 0 && !f.exactAll {
+			// under a quantifier: the same uninterpreted application; its definition is supplied where the
+			// quantifier is instantiated by the axiom declared with the function (pattern: the application itself)
+			uf := name + "!"
+			if !f.declared[uf] {
+				f.declareFun(uf, "((Array Int (_ BitVec 64)) Int Int) Int")
+				f.decls = append(f.decls, "(assert (forall ((a (Array Int (_ BitVec 64))) (o Int) (i Int)) (! (= ("+uf+" a o i) ("+name+" a o i)) :pattern (("+uf+" a o i)))))")
+			}
+			return Val{K: KInt, T: "(" + uf + " " + a + " " + o + " " + i + ")", Typ: tInt}, tInt, nil
+		}
+		if (name == "bitat" || name == "rank1") && f.qdepth == 0 && !f.exactAll {
+			// ground occurrence: an uninterpreted application (so that congruence a = b ==> bitat(ws,a) = bitat(ws,b)
+			// is immediate) tied to the definition by one ground equation
+			uf := name + "!"
+			if !f.declared[uf] {
+				f.declareFun(uf, "((Array Int (_ BitVec 64)) Int Int) Int")
+				f.decls = append(f.decls, "(assert (forall ((a (Array Int (_ BitVec 64))) (o Int) (i Int)) (! (= ("+uf+" a o i) ("+name+" a o i)) :pattern (("+uf+" a o i)))))")
+			}
+			app := "(" + uf + " " + a + " " + o + " " + i + ")"
+			key := f.canon(app)
+			if !f.groundDefs[key] {
+				f.groundDefs[key] = true
+				f.pendingDefs = append(f.pendingDefs, "(assert (= "+app+" ("+name+" "+a+" "+o+" "+i+")))")
+				if !f.noDefine {
+					f.flushDefs()
+				}
+			}
+			return Val{K: KInt, T: app, Typ: tInt}, tInt, nil
+		}
 		return Val{K: KInt, T: "(" + name + " " + a + " " + o + " " + i + ")", Typ: tInt}, tInt, nil
 	case "ones":
 		v, t, err := argv(0)
@@ -1041,7 +1070,12 @@ func (e *Env) predicate(pd *PredDecl, n *ast.CallExpr) (Val, types.Type, error) 
 		return Val{K: KBool, T: nm}, tBool, nil
 	}
 	nm := f.fresh("P." + strings.ReplaceAll(pd.Name, ":", "_"))
-	f.emit("(define-fun " + nm + " () Bool " + body + ")")
+	if f.C != nil && f.C.Opaque[pd.Name] {
+		// opaque here: the instance is identified by its canonical text but its content is not visible to the solver
+		f.emit("(declare-const " + nm + " Bool)")
+	} else {
+		f.emit("(define-fun " + nm + " () Bool " + body + ")")
+	}
 	f.predCache[key] = nm
 	f.predIdx[nm] = len(f.cmds)
 	return Val{K: KBool, T: nm}, tBool, nil
